@@ -328,6 +328,76 @@ Proof.
 Qed.
 
 (* ------------------------------------------------------------------ *)
+(* range of the direction; deep water converges                         *)
+(* ------------------------------------------------------------------ *)
+(* the direction lies in (-180, 180] *)
+Lemma atan2_range : forall y x, - PI < atan2 y x <= PI.
+Proof.
+  intros y x. unfold atan2. pose proof PI_RGT_0 as Hpi.
+  destruct (Rlt_dec 0 x) as [Hx|Hx].
+  - pose proof (atan_bound (y / x)). lra.
+  - destruct (Rlt_dec x 0) as [Hx'|Hx'].
+    + destruct (Rle_dec 0 y) as [Hy|Hy].
+      * assert (y / x <= 0).
+        { unfold Rdiv. assert (/ x < 0) by (apply Rinv_lt_0_compat; assumption).
+          assert (0 <= y * - / x) by (apply Rmult_le_pos; lra). lra. }
+        assert (atan (y / x) <= 0).
+        { destruct (Req_dec (y / x) 0) as [E|E]; [rewrite E, atan_0; lra|].
+          rewrite <- atan_0. apply Rlt_le, atan_increasing. lra. }
+        pose proof (atan_bound (y / x)). lra.
+      * assert (0 < y / x).
+        { unfold Rdiv. assert (/ x < 0) by (apply Rinv_lt_0_compat; assumption).
+          assert (0 < (- y) * - / x) by (apply Rmult_lt_0_compat; lra). lra. }
+        assert (0 < atan (y / x)) by (rewrite <- atan_0; apply atan_increasing; assumption).
+        pose proof (atan_bound (y / x)). lra.
+    + destruct (Rlt_dec 0 y); [lra|]. destruct (Rlt_dec y 0); lra.
+Qed.
+
+Lemma dir_deg_range : forall a b, -180 < dir_deg a b <= 180.
+Proof.
+  intros a b. unfold dir_deg. pose proof PI_RGT_0 as Hpi. pose proof (atan2_range b a) as [H1 H2].
+  split.
+  - apply (Rmult_lt_reg_r PI); [assumption|].
+    unfold Rdiv. rewrite Rmult_assoc, Rinv_l, Rmult_1_r by lra. lra.
+  - apply (Rmult_le_reg_r PI); [assumption|].
+    unfold Rdiv. rewrite Rmult_assoc, Rinv_l, Rmult_1_r by lra. lra.
+Qed.
+
+(* deep water: the first guess is the exact root, one Newton step leaves it unchanged and the loop
+   exits through the tolerance test *)
+Lemma deep_newton_fixed : forall w, 0 < w ->
+  newton1 (w, Deep) (first_guess (w, Deep)) = first_guess (w, Deep).
+Proof.
+  intros w Hw. unfold newton1. rewrite deep_first_guess_exact by assumption.
+  unfold Rminus at 2. rewrite Rplus_opp_r. unfold Rdiv at 1. rewrite Rmult_0_l. lra.
+Qed.
+
+Definition all_deep (ps : list (R * depth)) : Prop := forall p, In p ps -> snd p = Deep /\ 0 < fst p.
+
+Lemma deep_converges : forall ps, all_deep ps ->
+  kinv ps = Converged (map (fun p => fst p * fst p / grav) ps).
+Proof.
+  intros ps H. unfold kinv. cbn [newton].
+  assert (Hstep : step_all ps (map first_guess ps) = map first_guess ps).
+  { rewrite step_all_map. apply map_ext_in. intros [w d] Hin.
+    destruct (H _ Hin) as [Hd Hw]. cbn in Hd, Hw. subst d. apply deep_newton_fixed; assumption. }
+  rewrite Hstep.
+  assert (Hok : ok_all tolerance ps (map first_guess ps) = true).
+  { unfold ok_all. apply forallb_forall. intros [[w d] k] Hin.
+    assert (Hk : k = first_guess (w, d)).
+    { clear -Hin. induction ps as [|q ps IH]; [contradiction|]. cbn in Hin.
+      destruct Hin as [E|Hin]; [inversion E; reflexivity | apply IH; assumption]. }
+    destruct (H _ (in_combine_l _ _ _ _ Hin)) as [Hd Hw]. cbn in Hd, Hw. subst d k.
+    cbn [fst snd]. unfold ok1. destruct (Req_EM_T w 0); [lra|].
+    rewrite deep_first_guess_exact by assumption.
+    unfold Rminus. rewrite Rplus_opp_r, Rabs_R0. unfold Rdiv. rewrite Rmult_0_l.
+    unfold tolerance. destruct (Rlt_dec 0 (1 / 1000)); [reflexivity | lra]. }
+  rewrite Hok. f_equal. apply map_ext_in. intros [w d] Hin.
+  destruct (H _ Hin) as [Hd Hw]. cbn in Hd, Hw. subst d. cbn [fst].
+  unfold first_guess. destruct (Rgt_dec w 0); [reflexivity | lra].
+Qed.
+
+(* ------------------------------------------------------------------ *)
 (* instance: plateau (tie) and a larger value outside the band           *)
 (* ------------------------------------------------------------------ *)
 Definition exp_f : list R := [1 / 8; 1 / 4; 1 / 2; 1; 2].
